@@ -16,8 +16,8 @@ func init() {
 	core.Register(&core.Check{
 		ID: "C31", Level: "other", Title: "Ontology and NEO light clients follow authenticated validator changes",
 		Technique: "sibling template: guard dominance + loop-iteration rules + value flow",
-		Explain: "Ontology: ont.verifyHeader passes the same quorum template as C24 (count test 3·len(Bookkeepers) >= len(PeerMap) of the peer set at FindKeyHeight(header.Height), per-iteration membership + distinctness over header.Bookkeepers, VerifyMultiSignature(header.Hash(), Bookkeepers, len(Bookkeepers), SigData)); in SyncBlockHeader PutBlockHeader and UpdateConsensusPeer are dominated by verifyHeader err==nil for that same header; UpdateConsensusPeer records a peer set only under NewChainConfig != nil, at Height = header.Height, from that header's own consensus payload; putConsensusPeers is called only from UpdateConsensusPeer, whose callers are SyncBlockHeader (after verification) and SyncGenesisHeader (operator-witnessed, C18); FindKeyHeight returns only a key height strictly below the queried height. NEO / N3 / legacy N3: in SyncBlockHeader the new tracked consensus is created only under header index > tracked height and verifyHeader err==nil for that header, carries that header's index and next-consensus, and only such an object reaches putConsensusValByChainId; verifyHeader returns nil only when the header witness's script hash equals the tracked NextConsensus and VerifyMultiSignatureWitness over the header's own message is true. NOT decided: that FindKeyHeight returns the GREATEST key height below (depends on the stored list order).",
-		Run: runC31,
+		Explain:   "Ontology: ont.verifyHeader passes the same quorum template as C24 (count test 3·len(Bookkeepers) >= len(PeerMap) of the peer set at FindKeyHeight(header.Height), per-iteration membership + distinctness over header.Bookkeepers, VerifyMultiSignature(header.Hash(), Bookkeepers, len(Bookkeepers), SigData)); in SyncBlockHeader PutBlockHeader and UpdateConsensusPeer are dominated by verifyHeader err==nil for that same header; UpdateConsensusPeer records a peer set only under NewChainConfig != nil, at Height = header.Height, from that header's own consensus payload; putConsensusPeers is called only from UpdateConsensusPeer, whose callers are SyncBlockHeader (after verification) and SyncGenesisHeader (operator-witnessed, C18); FindKeyHeight returns only a key height strictly below the queried height. NEO / N3 / legacy N3: in SyncBlockHeader the new tracked consensus is created only under header index > tracked height and verifyHeader err==nil for that header, carries that header's index and next-consensus, and only such an object reaches putConsensusValByChainId; verifyHeader returns nil only when the header witness's script hash equals the tracked NextConsensus and VerifyMultiSignatureWitness over the header's own message is true. NOT decided: that FindKeyHeight returns the GREATEST key height below (depends on the stored list order).",
+		Run:       runC31,
 	})
 }
 
@@ -86,7 +86,10 @@ func runC31(c *core.Ctx) {
 	cg := c.P.CG()
 	if f := c.Fn(pkOntHS, "putConsensusPeers"); f != nil {
 		var names []string
-		for _, x := range cg.Callers(f) {
+		_ = cg
+		for _, x := range c.P.EffectiveCallers(f, func(y *ssa.Function) bool {
+			return ir.FuncName(y) == "native/service/header_sync/ont.UpdateConsensusPeer"
+		}) {
 			names = append(names, ir.FuncName(x))
 		}
 		c.Decide(len(names) == 1 && names[0] == "native/service/header_sync/ont.UpdateConsensusPeer", "C31.who-may-record-peers", f, "putConsensusPeers called only from UpdateConsensusPeer", c.P.Rel(f.Pos()), sprintf("%v", names))
@@ -94,7 +97,10 @@ func runC31(c *core.Ctx) {
 	if f := c.Fn(pkOntHS, "UpdateConsensusPeer"); f != nil {
 		okC := true
 		var names []string
-		for _, x := range cg.Callers(f) {
+		for _, x := range c.P.EffectiveCallers(f, func(y *ssa.Function) bool {
+			n := ir.FuncName(y)
+			return n == "(*native/service/header_sync/ont.ONTHandler).SyncBlockHeader" || n == "(*native/service/header_sync/ont.ONTHandler).SyncGenesisHeader"
+		}) {
 			n := ir.FuncName(x)
 			names = append(names, n)
 			if n != "(*native/service/header_sync/ont.ONTHandler).SyncBlockHeader" && n != "(*native/service/header_sync/ont.ONTHandler).SyncGenesisHeader" {
